@@ -42,17 +42,27 @@ Theorem C13_nil_pointer_changes_nothing : forall n d, merge (S n) d (VPtr None) 
 Proof. exact merge_ptr_nil. Qed.
 Print Assumptions C13_nil_pointer_changes_nothing.
 
-(* custom field maps merge key by key: a key the override sets non-empty is replaced, a key only the override has
-   is added, every other key keeps the base's value *)
+(* custom field maps merge key by key: a key the override has is taken from the override - ALSO when its value is
+   empty (mergo's map case never asks whether the value is empty) - every other key keeps the base's value *)
 Theorem C13_map_key_by_key : forall n ms md k,
   NoDup (map fst ms) -> (forall k' s, In (k', s) ms -> plain s = true) ->
   vlookup k (fold_left (map_step n) ms md) =
   match vlookup k ms with
   | None => vlookup k md
-  | Some s => match vlookup k md with Some d => Some (if is_empty_value s then d else s) | None => Some s end
+  | Some s => Some s
   end.
 Proof. exact merge_map_lookup. Qed.
 Print Assumptions C13_map_key_by_key.
+
+(* REFUTED as the property states it ("exactly those fields the block sets to a NON-EMPTY value"): an empty value
+   for a custom field in an override block replaces the base's value (known finding C13-K1) *)
+Theorem C13_empty_map_value_refuted :
+  let base := VStruct [(B "Fields", VMap [(B "Bugs", VStr (B "https://example.com"))])] in
+  let ov := VStruct [(B "Fields", VMap [(B "Bugs", VStr [])])] in
+  merge 40 base ov <> spec_merge 40 base ov /\
+  path_get (merge 40 base ov) [B "Fields"] = Some (VMap [(B "Bugs", VStr [])]).
+Proof. split; [vm_compute; discriminate|reflexivity]. Qed.
+Print Assumptions C13_empty_map_value_refuted.
 
 (* a format without an override block gets the base settings *)
 Theorem C13_no_block_gives_base : forall base ovs f, vlookup f ovs = None -> config_get base ovs f = base.
